@@ -1001,6 +1001,16 @@ func (hash *SexpHash) ShortName() string {
 }
 
 func (hash *SexpHash) SexpString(ps *PrintState) string {
+	// a hash can hold itself ((hset h k: h)); see SexpArray.SexpString.
+	if ps == nil {
+		ps = NewPrintState()
+	}
+	if ps.GetSeen(hash) {
+		return "{...}"
+	}
+	ps.SetSeen(hash, "SexpHash being printed")
+	defer delete(ps.Seen, hash)
+
 	indInner := ""
 	indent := ps.GetIndent()
 	innerPs := ps.AddIndent(4) // generates a fresh new PrintState
